@@ -12,3 +12,5 @@ func mustDeref(t types.Type) types.Type {
 	}
 	panic("mustDeref: not a pointer: " + t.String())
 }
+
+func typesNewPointer(t types.Type) types.Type { return types.NewPointer(t) }
